@@ -9,8 +9,9 @@ M-NUM / dates: executable mirror of `core/sudate.go` (`valid`, `NewDate` bit pac
 definition of that proleptic Gregorian normalisation (floor carries ms→s→min→h→day, months into
 years, days through the Julian day number). The day number is converted back to a calendar date by
 `civil` (a closed formula) and the result is CHECKED against the generated `julianDayNumber`
-(`fromJdn`): whenever `normalize` returns a date it is provably the right one; that the check
-never fails for in-range dates is tied by the correspondence run only.
+(`fromJdn`): whenever `normalize` returns a date it is provably the right one, and the check
+never fails for day numbers of 0000-01-01 … 3000-01-01 (`Gsu/Proofs/Date3.lean`: `civil_spec`,
+`fromJdn_total`, `normalize_total`).
 -/
 import Gsu.Util.Proto
 import Gsu.Gen.Date
